@@ -109,6 +109,31 @@ func c16CorpusMember(c *ev.Ctx, der []byte, note string, isRSA bool) {
 		c.Violation("C16:corpus:disagree:"+strings.Join(d, ","), fmt.Sprintf("lenient parser disagrees with crypto/x509 on %v for %s", d, note), cas)
 	}
 	c.Outcome("corpus-agree")
+	// the result belongs to the caller, and so does the input buffer: after the caller overwrote both, parsing the same
+	// bytes again gives the same certificate (a memo or pool sharing memory with earlier results or inputs shows here)
+	{
+		in2 := append([]byte{}, der...)
+		g1, e1, ok1 := c16Parse(c, in2, cas)
+		if ok1 && e1 == nil && g1 != nil {
+			for i := range g1.Raw {
+				g1.Raw[i] = 0xAA
+			}
+			for i := range g1.Signature {
+				g1.Signature[i] = 0x55
+			}
+			g1.Subject.CommonName, g1.SerialNumber = "scribbled", nil
+			for i := range in2 {
+				in2[i] = 0xCC
+			}
+			if g2, e2, ok2 := c16Parse(c, append([]byte{}, der...), cas); ok2 {
+				if e2 != nil || g2 == nil {
+					c.Violation("C16:corpus:second-parse-fails", fmt.Sprintf("the same bytes parsed a second time fail: %v", e2), cas)
+				} else if d := c16Compare(g2, ref, true); len(d) > 0 {
+					c.Violation("C16:corpus:depends-on-what-the-caller-did-to-an-earlier-result:"+strings.Join(d, ","), fmt.Sprintf("after the caller overwrote an earlier result and its input buffer, parsing the same bytes again disagrees with crypto/x509 on %v (%s)", d, note), cas)
+				}
+			}
+		}
+	}
 	// trailing data must be rejected
 	for _, tail := range [][]byte{{0}, {0x30, 0x00}, der[:4]} {
 		c.Eval()
